@@ -169,4 +169,6 @@ def _adjust_modulus_offset(
             results.append(res)
             prog.increment()
 
-    return sorted(results, key=lambda _: _[0])
+    # The results may have been collected in any order, so ties are broken by
+    # the names of the options rather than by the order of the results.
+    return sorted(results, key=lambda _: (_[0], _[2], _[3], _[4]))
